@@ -2,7 +2,7 @@
    verdict in go-git (Scope walk) and in git (prep_exclude + last_matching_pattern). *)
 From Coq Require Import List NArith Bool Lia PeanoNat.
 From GoGit Require Import Base.Out Model.Gitignore Spec.Glob Spec.GitIgnore
-     Proofs.C49Total Proofs.C49Wild Proofs.C49Git.
+     Proofs.C49Total Proofs.C49Wild Proofs.C49Git Proofs.C49Trim.
 Import ListNotations.
 Local Open Scope N_scope.
 
@@ -122,9 +122,6 @@ Proof.
     + exists []. rewrite app_nil_r. tauto.
 Qed.
 
-Lemma trim_id r : (match r with c :: _ => c =? cSP | [] => false end) = false -> trim_right_sp_rev r = r.
-Proof. destruct r as [|c r']; cbn; [reflexivity|]. now intros ->. Qed.
-
 Lemma split_slash_noslash : forall s cur, has_slash s = false -> split_slash s cur = [rev cur ++ s].
 Proof.
   induction s as [|c r IH]; intros cur H; cbn in *.
@@ -134,6 +131,25 @@ Proof.
 Qed.
 
 Definition nospace (l : bytes) : Prop := forall c, In c l -> is_space c = false.
+
+Lemma gtrim_id_n : forall n l, (List.length l <= n)%nat -> (forall x, In x l -> (x =? cSP) = false) -> gtrim l = l.
+Proof.
+  induction n as [|n IH]; intros l Hn Hl.
+  - destruct l; [reflexivity|cbn in Hn; lia].
+  - destruct l as [|c r]; [reflexivity|]. cbn [gtrim].
+    rewrite (Hl c (or_introl eq_refl)).
+    destruct (c =? cBSL).
+    + destruct r as [|d r']; [reflexivity|]. rewrite IH; [reflexivity|cbn in Hn; lia|].
+      intros x Hx. apply Hl. right. now right.
+    + rewrite IH; [reflexivity|cbn in Hn; lia|]. intros x Hx. apply Hl. now right.
+Qed.
+
+Lemma nospace_sp l x : nospace l -> In x l -> (x =? cSP) = false /\ (x =? cCR) = false.
+Proof.
+  intros H Hx. specialize (H _ Hx). unfold is_space in H. rewrite !orb_false_iff in H.
+  unfold cSP, cCR. tauto.
+Qed.
+
 
 Lemma parse_name l dir :
   nospace l -> (match l with c :: _ => c =? cBANG | [] => false end) = false ->
@@ -145,15 +161,9 @@ Proof.
                = (false, l)).
   { destruct l as [|c r]; [reflexivity|]. now rewrite Hb. }
   rewrite E0.
-  assert (Hsp : (match rev l with c :: _ => c =? cSP | [] => false end) = false).
-  { destruct (rev l) as [|c r] eqn:E; [reflexivity|].
-    assert (In c l) by (apply in_rev; rewrite E; now left).
-    specialize (Hns _ H). unfold is_space in Hns. rewrite !orb_false_iff in Hns. unfold cSP. tauto. }
-  assert (E1 : (match rev l with
-                | a :: b :: _ => if (a =? cSP) && (b =? cBSL) then rev l else trim_right_sp_rev (rev l)
-                | _ => trim_right_sp_rev (rev l) end) = rev l).
-  { rewrite (trim_id _ Hsp). destruct (rev l) as [|a [|b r]]; try reflexivity.
-    now destruct ((a =? cSP) && (b =? cBSL)). }
+  assert (E1 : trim_trailing_spaces l = l).
+  { rewrite trim_eq_git. apply (gtrim_id_n (List.length l)); [lia|].
+    intros x Hx. exact (proj1 (nospace_sp _ _ Hns Hx)). }
   rewrite E1. unfold body_of_line, ends_slash in *.
   destruct (rev l) as [|c r] eqn:E.
   - cbn. assert (l = []) by (rewrite <- (rev_involutive l), E; reflexivity). subst. reflexivity.
@@ -241,24 +251,6 @@ Definition PR (dir : list bytes) (p : pat) (g : gpat) : Prop :=
   g_neg g = false /\ g_nodir g = true /\ g_mustdir g = p_dironly p /\
   exists body, p_segs p = [body] /\ forall name, match_basename g name = wildmatch body name.
 
-Lemma gtrim_id_n : forall n l, (List.length l <= n)%nat -> (forall x, In x l -> (x =? cSP) = false) -> gtrim l = l.
-Proof.
-  induction n as [|n IH]; intros l Hn Hl.
-  - destruct l; [reflexivity|cbn in Hn; lia].
-  - destruct l as [|c r]; [reflexivity|]. cbn [gtrim].
-    rewrite (Hl c (or_introl eq_refl)).
-    destruct (c =? cBSL).
-    + destruct r as [|d r']; [reflexivity|]. rewrite IH; [reflexivity|cbn in Hn; lia|].
-      intros x Hx. apply Hl. right. now right.
-    + rewrite IH; [reflexivity|cbn in Hn; lia|]. intros x Hx. apply Hl. now right.
-Qed.
-
-Lemma nospace_sp l x : nospace l -> In x l -> (x =? cSP) = false /\ (x =? cCR) = false.
-Proof.
-  intros H Hx. specialize (H _ Hx). unfold is_space in H. rewrite !orb_false_iff in H.
-  unfold cSP, cCR. tauto.
-Qed.
-
 Lemma keep_line_name l : nospace l -> l <> [] ->
   keep_line l = negb (match l with c :: _ => c =? cHASH | [] => false end).
 Proof.
@@ -330,7 +322,29 @@ Proof.
       * right. split; [now right|assumption].
 Qed.
 
+Lemma split_lf_first : forall s cur, cur <> [] ->
+  exists tail rest, split_lf s cur = (rev cur ++ tail) :: rest.
+Proof.
+  induction s as [|c r IH]; intros cur Hc; cbn [split_lf].
+  - destruct cur; [congruence|]. exists [], []. now rewrite app_nil_r.
+  - destruct (c =? cLF).
+    + exists [], (split_lf r []). now rewrite app_nil_r.
+    + destruct (IH (c :: cur) ltac:(discriminate)) as (tail & rest & E).
+      exists (c :: tail), rest. rewrite E. cbn [rev]. now rewrite <- app_assoc.
+Qed.
+
+Lemma strip_bom_first_id c : (match c with b :: _ => b =? 239 | [] => false end) = false ->
+  strip_bom_first (split_lf c []) = split_lf c [].
+Proof.
+  intros Hb. destruct c as [|b r]; [reflexivity|]. cbn [split_lf].
+  destruct (b =? cLF); [reflexivity|].
+  destruct (split_lf_first r [b] ltac:(discriminate)) as (tail & rest & E). rewrite E.
+  cbn [rev app strip_bom_first]. f_equal. unfold strip_bom.
+  destruct tail as [|t1 [|t2 r2]]; try reflexivity. now rewrite Hb.
+Qed.
+
 Lemma content_lines c : content_ok c = true ->
+  strip_bom_first (split_lf c []) = split_lf c [] /\
   scan_lines c [] = split_lf c [] /\ skip_bom c = c /\
   forall l, In l (split_lf c []) -> nospace l /\ name_line l = true.
 Proof.
@@ -340,6 +354,7 @@ Proof.
   { intros x Hx. specialize (Hsp _ Hx). apply orb_true_iff in Hsp. destruct Hsp as [H|H].
     - apply N.eqb_eq in H. subst. reflexivity.
     - apply negb_true_iff in H. unfold is_space in H. rewrite !orb_false_iff in H. unfold cCR. tauto. }
+  split; [apply strip_bom_first_id; now apply negb_true_iff in Hbom|].
   split; [apply scan_eq_split; [assumption|intros x []]|].
   split.
   { unfold skip_bom. destruct c as [|b [|b2 [|b3 r3]]]; try reflexivity.
@@ -351,8 +366,8 @@ Qed.
 
 Lemma file_PR c dir : content_ok c = true -> Forall2 (PR dir) (read_ignore c dir) (gread c dir).
 Proof.
-  intros Hc. destruct (content_lines _ Hc) as (E1 & E2 & Hl).
-  unfold read_ignore, gread. rewrite E1, E2. clear E1 E2.
+  intros Hc. destruct (content_lines _ Hc) as (E0 & E1 & E2 & Hl).
+  unfold read_ignore, gread. rewrite E1, E0, E2. clear E0 E1 E2.
   revert Hl. generalize (split_lf c []). intros L.
   induction L as [|l ls IH]; intros Hl; [constructor|].
   assert (Hl0 := Hl l (or_introl eq_refl)). destruct Hl0 as [Hns Hnl].
